@@ -226,6 +226,10 @@ KEEP_DECORATORS = {"property", "dataclass", "staticmethod", "cached_property", "
 class Xform(ast.NodeTransformer):
     def __init__(self, info, inv_loops, logger_names=("logger",)):
         self.info = info
+        # inv_loops: ordinals, or {ordinal: names of the contract's state} (those names are handed to the loop
+        # machinery in addition to the names the body assigns: a state component the body only modifies through a
+        # callee, or under another local name, is still part of the summarised state)
+        self.extra_names = dict(inv_loops) if isinstance(inv_loops, dict) else {}
         self.inv_loops = set(inv_loops or ())
         self.loop_no = 0
         self.depth = 0
@@ -473,7 +477,7 @@ class Xform(ast.NodeTransformer):
             raise Undecided("loop %d of %s: break/continue/return/else with an invariant" %
                             (k, self.info.qualname))
         tnames = {x.id for x in ast.walk(n.target) if isinstance(x, ast.Name)}
-        names = sorted(_assigned_names(n.body) - tnames)
+        names = sorted((_assigned_names(n.body) | set(self.extra_names.get(k, ()))) - tnames)
         it = n.iter
         if isinstance(it, ast.Call) and isinstance(it.func, ast.Name) and it.func.id == "range":
             if len(it.args) == 1:
@@ -633,14 +637,59 @@ def resolve_loop_selectors(modname, qualname, loop_specs):
         if not isinstance(key, str):
             out.setdefault(key, spec)
             continue
-        how, name = key.split(":", 1)
-        name, _, excl = name.partition("!")       # "NAME!OTHER": assigns NAME but not OTHER
-        cands = [(k, d) for (k, d, names) in found if name in names and not (excl and excl in names)]
-        if not cands:
-            continue
-        k = min(cands, key=lambda c: (c[1], c[0]))[0] if how == "outer" else max(cands, key=lambda c: (c[1], c[0]))[0]
-        out.setdefault(k, spec)
+        # alternatives "a|b": the first that matches; "nest:K" / "nest:K.J" = K-th outermost loop of the function /
+        # J-th loop directly inside it, in source order (structural fallback when the locals were renamed)
+        for alt in key.split("|"):
+            how, name = alt.split(":", 1)
+            if how == "nest":
+                path = [int(x) for x in name.split(".")]
+                k = _loop_at_path(node, path)
+                if k is None or k in out:
+                    continue
+                out[k] = spec
+                break
+            name, _, excl = name.partition("!")       # "NAME!OTHER": assigns NAME but not OTHER
+            cands = [(k, d) for (k, d, names) in found if name in names and not (excl and excl in names)]
+            if not cands:
+                continue
+            k = min(cands, key=lambda c: (c[1], c[0]))[0] if how == "outer" else max(cands, key=lambda c: (c[1], c[0]))[0]
+            out.setdefault(k, spec)
+            break
     return out
+
+
+def _loop_at_path(fnode, path):
+    """Ordinal (source order of all `for` statements of the function) of the loop reached by descending `path`:
+    path[0]-th loop at nesting depth 0, then path[1]-th loop directly nested in it, ..."""
+    order = []
+
+    class V(ast.NodeVisitor):
+        def visit_For(self, n):
+            order.append(n)
+            self.generic_visit(n)
+    V().visit(fnode)
+
+    def direct(node):
+        res = []
+
+        class W(ast.NodeVisitor):
+            def visit_For(self, n):
+                res.append(n)      # do not descend: only loops directly below `node`
+
+            def visit_FunctionDef(self, n):
+                if n is node:
+                    self.generic_visit(n)
+        w = W()
+        for ch in ast.iter_child_nodes(node):
+            w.visit(ch)
+        return res
+    cur = fnode
+    for p in path:
+        ds = direct(cur)
+        if p >= len(ds):
+            return None
+        cur = ds[p]
+    return order.index(cur)
 
 
 def compile_into(ns, modname, qualname, loop_specs=None, label=None):
@@ -649,7 +698,7 @@ def compile_into(ns, modname, qualname, loop_specs=None, label=None):
     under `label` in ns['__pyvc_loopspecs__'] and looked up by the engine at run time."""
     label = label or (modname.split(".")[-1] + "." + qualname)
     loop_specs = resolve_loop_selectors(modname, qualname, loop_specs)
-    code, info, name = extract(modname, qualname, inv_loops=list((loop_specs or {}).keys()),
+    code, info, name = extract(modname, qualname, inv_loops={k: tuple(getattr(v, "state_names", ()) or ()) for k, v in (loop_specs or {}).items()},
                                label=label)
     for k, v in base_namespace().items():
         ns.setdefault(k, v)
